@@ -462,7 +462,71 @@ def r9(ctx):
         raise AnalysisBroken('C18.R9: no argument is joined into a stream in parseHexMaster')
 
 
+def r12(ctx):
+    ctx.rule('C18.R12', 'the request grows only by what the client sent: every pass of the loop in Connection::run that hands the '
+             'receive buffer to RequestImpl::add() has written that buffer in the same pass - the received bytes with their '
+             'terminator, or an empty string when the pass was not triggered by new data (listen mode ticks); a buffer left over '
+             'from an earlier pass would be appended again', minimum=1)
+    fb = ctx.fb
+    fn = fb.fn('ebusd::Connection::run')
+    ctx.touch(fn)
+    adds = [c for c in fn.all('CXXMemberCallExpr') if (fn.nodes[c].get('callee') or '').endswith('RequestImpl::add') or
+            (fn.nodes[c].get('callee') or '').endswith('Request::add')]
+    if not adds:
+        raise AnalysisBroken('C18.R12: the call of add() not found in Connection::run')
+    heads = [b for b in fn.blocks.values() if b.tk == 'WhileStmt' and len(b.succs) == 2]
+    for c in adds:
+        buf = fn.key(fn.nodes[c]['args'][0])
+        # terminating writes buf[i] = 0 of this pass
+        terms = set(nid for nid, d, rhs, op, lhs in fn.assignments() if lhs is not None and rhs is not None and op == '=' and
+                    fn.nodes[fn.strip(lhs)].get('k') == 'ArraySubscriptExpr' and fn.key(fn.nodes[fn.strip(lhs)]['base']) == buf and fn.val(rhs) == 0)
+        pc = fn.pos(c)
+        outer = [h for h in heads if fn.reaches_point(h.succs[0], pc, set())]
+        if not outer:
+            raise AnalysisBroken('C18.R12: loop around add() not found')
+        # the outermost loop that contains the call: from the start of its body every path to add() passes a terminating write
+        stale = any(fn.reaches_point(h.succs[0], pc, terms) for h in outer)
+        ctx.ob('C18.R12', fn, c, bool(terms) and not stale, 'buffer handed to add()', 'written in the same pass on every path: %s' % (bool(terms) and not stale))
+
+
+def r13(ctx):
+    ctx.rule('C18.R13', 'a percent escape is "%" and exactly two hex digits: in RequestImpl::add the characters erased behind the '
+             'decoded byte are exactly the characters the conversion is guaranteed to have consumed - every conversion of the '
+             'sscanf that guards the erase has width 1 (a field width is a maximum, "%2x" also accepts one digit), all of '
+             'them must have matched (result < number of conversions leaves the loop) and their number equals the erased '
+             'length', minimum=1)
+    import re
+    fb = ctx.fb
+    fn = fb.fn('ebusd::RequestImpl::add')
+    ctx.touch(fn)
+    n = 0
+    for c in fn.all('CXXMemberCallExpr'):
+        v = fn.nodes[c]
+        if not (v.get('callee') or '').endswith('::erase') or len(v.get('args', [])) != 2 or fn.val(v['args'][1]) is None:
+            continue
+        count = fn.val(v['args'][1])
+        guards = [(k, p) for k, p in ((a[0], a[1]) for a in fn.atoms(c)) if k.startswith('(sscanf(')]
+        if not guards:
+            continue
+        n += 1
+        k, pol = guards[0]
+        m = re.match(r'^\(sscanf\(.*?,"((?:[^"\\]|\\.)*)",.*\) (<|<=|==) #(\d+)\)$', k)
+        if not m:
+            ctx.ob('C18.R13', fn, c, False, 'erase behind the decoded byte', 'guard %s not understood' % k)
+            continue
+        convs = re.findall(r'%(\d*)([a-zA-Z])', m.group(1))
+        need = int(m.group(3)) if m.group(2) == '<' else int(m.group(3)) + 1
+        ok = bool(convs) and all(w == '1' and t in 'xX' for w, t in convs) and len(convs) == count and \
+            m.group(2) in ('<', '<=') and not pol and need == len(convs)
+        ctx.ob('C18.R13', fn, c, ok, 'erase of %d characters behind the decoded byte' % count,
+               'guarded by %d conversion(s) %s, all required: %s' % (len(convs), ['%%%s%s' % x for x in convs], need == len(convs)))
+    if n < 1:
+        raise AnalysisBroken('C18.R13: erase guarded by an sscanf not found in RequestImpl::add')
+
+
 def run(ctx):
+    r13(ctx)
+    r12(ctx)
     r9(ctx)
     r8(ctx)
     r1(ctx)
@@ -475,3 +539,8 @@ def run(ctx):
     import rules.common as _common
     ctx.rule('C18.R10', 'arguments keep their roles across calls: at every call of a repository function in the client-facing sources (what was parsed as circuit, name, field or data reaches the handler in that role) whose arguments are named like parameters of the callee, no two of them are passed crosswise (argument i named like parameter j and argument j like parameter i)', minimum=15)
     _common.swapped_args_rule(ctx, 'C18.R10', ('src/ebusd/',), 15)
+    ctx.rule('C18.R11', 'a request is cut at positions that exist: every s.substr(k, ...) with a constant start k > 0 in the request, '
+             'command and topic handling is reached only with at least k characters known for s (size tests, prefix comparison, '
+             'character test, successful find); a weaker test lets a short request end the daemon with std::out_of_range',
+             minimum=3)
+    _common.substr_bound_rule(ctx, 'C18.R11', lambda f: f.relfile.startswith(('src/ebusd/request.', 'src/ebusd/mainloop.', 'src/ebusd/mqtthandler.', 'src/ebusd/network.')), 3)
